@@ -316,6 +316,106 @@ where
     }
 }
 
+/// division of EVERY dividend by a constant power-of-two divisor (-1)^NEG 2^K (raw bits), all five forms, any width
+/// incl. 64 and 128 bits (the library's dividers fold for such divisors): the exact quotient trunc(a 2^f / b)
+/// is (-1)^(sign a xor NEG) (|a| 2^f >> K)
+pub fn div_pow2<L, const K: u32, const NEG: bool>()
+where
+    L: Fixed + core::ops::Div<Output = L>,
+    L::Bits: Raw,
+{
+    let a = <L::Bits as Raw>::any();
+    let bmag = 1u128 << K;
+    let b = <L::Bits as Raw>::trunc(if NEG { bmag.wrapping_neg() } else { bmag });
+    let x = L::from_bits(a);
+    let y = L::from_bits(b);
+    let (an, aa) = a.neg_abs();
+    let f = L::frac_nbits();
+    let n = U256::shl_u128(aa, f);
+    let mag = if K == 0 {
+        n
+    } else {
+        U256 { hi: n.hi >> K, lo: (n.lo >> K) | (n.hi << (128 - K)) }
+    };
+    let want = settle_sm::<L::Bits>(an != NEG, mag);
+    kani::cover!(want.overflow || mag.lo != 0, "W:quotient overflows or is a non-zero value that fits");
+    kani::cover!(want.overflow, "quotient overflows");
+    kani::cover!(!want.overflow && (mag.lo != 0), "non-zero quotient fits");
+    four_forms!(L, want, x.overflowing_div(y), x.wrapping_div(y), x.checked_div(y), x.saturating_div(y),
+        "div by +-2^K: checked/saturating/wrapping/overflowing agree with trunc(a*2^f/b) (flag, value mod 2^W, None, side)");
+    if !want.overflow {
+        assert!((x / y).to_bits() == want.wrapped, "a / b = trunc(a*2^f/b) when representable");
+    }
+}
+
+/// division of EVERY dividend by a constant divisor (-1)^NEG (DH 2^64 + DL) (raw bits), 64- and 128-bit types:
+/// flag by comparing |a| 2^f with |b| 2^(W-1) (+|b|) resp. |b| 2^W, quotient by 256-bit multiply-back with the constant
+pub fn div_const<L, const DH: u64, const DL: u64, const NEG: bool, const FORM: u8>()
+where
+    L: Fixed + core::ops::Div<Output = L>,
+    L::Bits: Raw,
+{
+    let a = <L::Bits as Raw>::any();
+    let ba: u128 = ((DH as u128) << 64) | (DL as u128);
+    let b = <L::Bits as Raw>::trunc(if NEG { ba.wrapping_neg() } else { ba });
+    let x = L::from_bits(a);
+    let y = L::from_bits(b);
+    let (an, aa) = a.neg_abs();
+    let f = L::frac_nbits();
+    let w = <L::Bits as Raw>::W;
+    let neg = an != NEG;
+    let n = U256::shl_u128(aa, f);
+    let signed = <L::Bits as Raw>::SIGNED;
+    let lim = if signed {
+        let t = U256::shl_u128(ba, w - 1);
+        if neg {
+            let (lo, c) = t.lo.overflowing_add(ba);
+            U256 { hi: t.hi + c as u128, lo }
+        } else {
+            t
+        }
+    } else {
+        U256::shl_u128(ba, w)
+    };
+    let ovf = n.cmp(lim) != Ordering::Less;
+    kani::cover!(ovf || aa != 0, "W:quotient overflows or dividend non-zero");
+    let check_q = |q: L::Bits| {
+        let (qn, qa) = q.neg_abs();
+        let back = mul256(qa, ba);
+        assert!(back.cmp(n) != Ordering::Greater, "quotient: |q||b| <= |a| 2^f");
+        let (dlo, br) = n.lo.overflowing_sub(back.lo);
+        let dhi = n.hi.wrapping_sub(back.hi).wrapping_sub(br as u128);
+        assert!(dhi == 0 && dlo < ba, "quotient: |a| 2^f - |q||b| < |b|");
+        assert!(qa == 0 || qn == neg, "quotient has the sign of a/b");
+    };
+    if FORM == 0 {
+        let (q, o) = x.overflowing_div(y);
+        assert!(o == ovf, "overflowing_div flag <=> trunc(a*2^f/b) not representable");
+        if !ovf {
+            check_q(q.to_bits());
+        }
+    } else if FORM == 2 {
+        match x.checked_div(y) {
+            None => assert!(ovf, "checked_div is None only on overflow"),
+            Some(q) => {
+                assert!(!ovf, "checked_div is Some only when representable");
+                check_q(q.to_bits());
+            }
+        }
+    } else if FORM == 3 {
+        let sq = x.saturating_div(y);
+        if ovf {
+            let bound = if neg { L::min_value() } else { L::max_value() };
+            assert!(sq.to_bits() == bound.to_bits(), "saturating_div clamps to the bound on the quotient's side");
+        } else {
+            check_q(sq.to_bits());
+        }
+    } else {
+        kani::assume(!ovf);
+        check_q((x / y).to_bits());
+    }
+}
+
 /// multiplication by an integer, widths 8..64: one form
 pub fn mulint_one<L, const FORM: u8>()
 where
